@@ -82,7 +82,7 @@ def join(
 ) -> str:
     """Return a string by joining items in _sequence_, separated by _separator_."""
     if not isinstance(separator, str):
-        separator = str(separator)
+        separator = to_liquid_string(separator)
 
     if environment.auto_escape and separator == " ":
         separator = Markup(" ")
